@@ -22,17 +22,18 @@ type Case struct {
 	Entity   string           `json:"entity,omitempty"`
 	Cfg      []int            `json:"cfg,omitempty"`
 	Scale    int              `json:"scale,omitempty"`
-	Variant  int              `json:"variant,omitempty"`    // non-period parameters scaled by variantFactor[Variant]
-	Procs    int              `json:"gomaxprocs,omitempty"` // GOMAXPROCS of the process that found it (replay sets it again)
-	Local    int              `json:"local_zone_hours,omitempty"` // the process's local time zone during the case (UTC+h); 0 = UTC
-	Lock     bool             `json:"lockstep_readers,omitempty"` // C09 concurrent mode: one consumer reads the outputs of all calls in turn
-	Late     bool             `json:"late_feed,omitempty"` // pipelines: the producers start only after the constructor (Compute) has returned
-	Outc     bool             `json:"with_outcome,omitempty"` // C03 strategies: also run through strategy.ComputeWithOutcome
-	Nbr      bool             `json:"neighbour,omitempty"` // C03: an unrelated helper pipeline runs in the same simulation
+	Variant  int              `json:"variant,omitempty"`            // non-period parameters scaled by variantFactor[Variant]
+	Procs    int              `json:"gomaxprocs,omitempty"`         // GOMAXPROCS of the process that found it (replay sets it again)
+	Local    int              `json:"local_zone_hours,omitempty"`   // the process's local time zone during the case (UTC+h); 0 = UTC
+	Lock     bool             `json:"lockstep_readers,omitempty"`   // C09 concurrent mode: one consumer reads the outputs of all calls in turn
+	Early    bool             `json:"early_feed,omitempty"`         // pipelines: what fits into the input channels is queued before the constructor (Compute) is called
+	Late     bool             `json:"late_feed,omitempty"`          // pipelines: the producers start only after the constructor (Compute) has returned
+	Outc     bool             `json:"with_outcome,omitempty"`       // C03 strategies: also run through strategy.ComputeWithOutcome
+	Nbr      bool             `json:"neighbour,omitempty"`          // C03: an unrelated helper pipeline runs in the same simulation
 	Pub      bool             `json:"public_fields_only,omitempty"` // scaled configurations touch exported fields only (what a user can assign after construction)
-	Repeat   int              `json:"repeat_date,omitempty"` // reports: the snapshot at this position (1-based, >= 2) carries the date of the one before it
-	Base     int              `json:"base_dir,omitempty"`   // index into baseNames: the directory the case works in is named like that
-	Pause    int              `json:"pause,omitempty"`      // seconds of simulated time the harness's consumers let pass before their 2nd, 5th and 11th receive and its producers before their 3rd and 7th send
+	Repeat   int              `json:"repeat_date,omitempty"`        // reports: the snapshot at this position (1-based, >= 2) carries the date of the one before it
+	Base     int              `json:"base_dir,omitempty"`           // index into baseNames: the directory the case works in is named like that
+	Pause    int              `json:"pause,omitempty"`              // seconds of simulated time the harness's consumers let pass before their 2nd, 5th and 11th receive and its producers before their 3rd and 7th send
 	Lens     []int            `json:"lens,omitempty"`
 	Shape    int              `json:"shape,omitempty"`
 	DataSeed int64            `json:"data_seed,omitempty"`
@@ -344,6 +345,8 @@ func workerMain() int {
 		}
 		if pipeBased[prop] && prop != "C09" && prop != "C14" && rng.Intn(6) == 0 {
 			c.Late = true // build, then feed
+		} else if pipeBased[prop] && prop != "C09" && prop != "C14" && rng.Intn(6) == 0 {
+			c.Early = true // feed, then build
 		}
 		if prop == "C03" && rng.Intn(8) == 0 {
 			c.Nbr = true
@@ -461,6 +464,13 @@ func reportViolation(ck Check, c *Case, v Violation, dir string, st *Stats) Viol
 	if cur.Late {
 		cand := *cur
 		cand.Late = false
+		if w, ok := same(&cand); ok {
+			cur, curV = &cand, w
+		}
+	}
+	if cur.Early {
+		cand := *cur
+		cand.Early = false
 		if w, ok := same(&cand); ok {
 			cur, curV = &cand, w
 		}
@@ -672,6 +682,9 @@ func runCase(ck Check, c *Case, st *Stats) []Violation {
 	}
 	if c.Late {
 		st.Faults["producers-started-after-the-pipeline-was-built"]++
+	}
+	if c.Early && c.Cap > 0 {
+		st.Faults["inputs-queued-before-the-pipeline-was-built"]++
 	}
 	if c.Nbr {
 		st.Faults["unrelated-pipeline-running-alongside"]++
